@@ -1,0 +1,12 @@
+//go:build verif
+
+// Verification contracts (property C25, addition; comment-only, read by /verif/govc).
+// The health answer that lets a partition through must be asked for in the same loop iteration: an answer cached
+// before the partition loops would let later partitions of one request through after S3 turned unhealthy.
+
+package main
+
+//@ func (h *handler) handleProduce
+//@   dominated [C25.produce_health_asked_for_each_partition] AppendBatch#* by State#1 same_iteration
+//@ func (h *handler) handleFetch
+//@   dominated [C25.fetch_health_asked_for_each_partition] getPartitionLog#1 by State#1 same_iteration
